@@ -204,6 +204,9 @@ def check_order(ctx):
         return e.k == "bin" and e.extra == "Eq" and e.has_field("FeoxStore", "format_version") and e.has_const(val=3)
     ok3 = A.pred_edges(b, ver_cmp, "true")
     R.guard(ctx, inst, b, pb, ok3, "publish only if the verified copy reports format version 3")
+    # publishing is the last fallible step: an error raised after it would leave the destination in place although migrate() failed
+    R.noerr_after(ctx, inst, b, pb, "after the destination name is published migrate() cannot fail any more (only publish itself rolls back)",
+                  allowed=["DestinationGuard::publish"])
     # source stamp re-checked between verify and publish
     st = ctx.sites(b, R.call("FileStamp::read_store_file", "FileStamp::read"), inst, floor=5)
     after_verify = []
@@ -212,6 +215,7 @@ def check_order(ctx):
         if s in r:
             after_verify.append(s)
     ctx.check(len(after_verify) >= 2, inst, "FOLLOW", b.path, "the source stamp is read again after verification", None)
+    R.dom(ctx, inst, b, after_verify[-1:], pb, "the last source-stamp comparison precedes publication", a_desc="FileStamp::read(source)")
     sc = ctx.sites(b, R.aggregate("MigrationError", "SourceChanged"), inst, floor=3)
     # nothing happens for a v3 source
     def v3(e):
